@@ -118,7 +118,7 @@ fn spec_step(s: &St, op: Op) -> Option<St> {
                 in_range(&v).then(|| St { pure_: false, long: s.long.clone(), short: v })
             }
         }
-        Op::C => if !s.pure_ && (&s.long).min(&s.short) >= &(BigInt::from(1) << 127) { None } else { Some(if s.pure_ {
+        Op::C => { Some(if s.pure_ {
             St { pure_: true, long: &s.long % &two, short: s.short.clone() }
         } else if s.long >= s.short {
             St { pure_: false, long: &s.long - &s.short, short: BigInt::from(0) }
@@ -166,6 +166,13 @@ fn oracle(req: &str, resp: &str) -> Result<(), String> {
     };
     let mut s = s0;
     for (i, op) in ops.iter().enumerate() {
+        // Netting an IMPURE pool whose smaller side is >= 2^127: the copy without the override
+        // inherits the default implementation, which fails there (F-C40). C15 is about pure pools,
+        // so both the failure and the exact result are accepted; the Lean model follows the source.
+        if matches!(op, Op::C) && !s.pure_ && (&s.long).min(&s.short) >= &(BigInt::from(1) << 127) {
+            let want = if t[1] == "seq" { format!("err {i}") } else { "err".to_string() };
+            if resp == want { return Ok(()); }
+        }
         match spec_step(&s, *op) {
             Some(n) => s = n,
             None => {
